@@ -29,6 +29,68 @@ theorem route5 (T : Tables) (hT : tablesWF T = true) (x : Locale) (h : x.inv = t
   show some (runState T x (route5Ops x)) = some x
   rw [route5_runState T hT x h]
 
+/-- a `true` among the values of `set_keyword` / `set_tfield` is not stored: the call is the call without it -/
+theorem collectTypes_append_true (p : Bytes → Res (Option Bytes)) (hp : p trueBytes = .ok none) (vs : List Bytes) :
+    collectTypes p (vs ++ [trueBytes]) = collectTypes p vs := by
+  induction vs with
+  | nil => simp [collectTypes, hp]
+  | cons v vs ih =>
+    simp only [List.cons_append, collectTypes, ih]
+
+theorem collectTypes_cons_true (p : Bytes → Res (Option Bytes)) (hp : p trueBytes = .ok none) (vs : List Bytes) :
+    collectTypes p (trueBytes :: vs) = collectTypes p vs := by
+  simp only [collectTypes, hp]
+  cases collectTypes p vs <;> simp
+
+theorem parseType_true : parseType trueBytes = .ok none := by decide
+theorem parseTValue_true : parseTValue trueBytes = .ok none := by decide
+
+theorem step_setKeyword_true (T : Tables) (x : Locale) (k : Bytes) (vs : List Bytes) :
+    step T x (.setKeyword k (vs ++ [trueBytes])) = step T x (.setKeyword k vs) := by
+  simp only [step, UExt.setKeyword, collectTypes_append_true parseType parseType_true]
+
+theorem step_setTField_true (T : Tables) (x : Locale) (k : Bytes) (vs : List Bytes) :
+    step T x (.setTField k (trueBytes :: vs)) = step T x (.setTField k vs) := by
+  simp only [step, TExt.setTField, collectTypes_cons_true parseTValue parseTValue_true]
+
+theorem runState_append (T : Tables) (x : Locale) (a b : List Op) :
+    runState T x (a ++ b) = runState T (runState T x a) b := by
+  simp only [runState, List.foldl_append]
+
+theorem runState_keywords_true (T : Tables) (l : List (Bytes × List Bytes)) : ∀ x : Locale,
+    runState T x (l.map fun kv => [Op.removeKeyword kv.1, Op.setKeyword kv.1 (kv.2 ++ [trueBytes])]).flatten =
+      runState T x (l.map fun kv => [Op.removeKeyword kv.1, Op.setKeyword kv.1 kv.2]).flatten := by
+  induction l with
+  | nil => intro x; rfl
+  | cons kv l ih =>
+    intro x
+    simp only [List.map_cons, List.flatten_cons, runState_append]
+    rw [ih]
+    congr 1
+    simp only [runState, List.foldl_cons, List.foldl_nil, step_setKeyword_true]
+
+theorem runState_tfields_true (T : Tables) (l : List (Bytes × List Bytes)) : ∀ x : Locale,
+    runState T x (l.map fun kv => [Op.removeTField kv.1, Op.setTField kv.1 (trueBytes :: kv.2)]).flatten =
+      runState T x (l.map fun kv => [Op.removeTField kv.1, Op.setTField kv.1 kv.2]).flatten := by
+  induction l with
+  | nil => intro x; rfl
+  | cons kv l ih =>
+    intro x
+    simp only [List.map_cons, List.flatten_cons, runState_append]
+    rw [ih]
+    congr 1
+    simp only [runState, List.foldl_cons, List.foldl_nil, step_setTField_true]
+
+/-- route 10 (route 5 with an extra `true` in every keyword / tfield that is set again) runs to the same value as route 5 … -/
+theorem route10_eq_route5 (T : Tables) (x : Locale) : runState T x (route10Ops x) = runState T x (route5Ops x) := by
+  unfold route10Ops route5Ops
+  simp only [runState_append, runState_keywords_true, runState_tfields_true]
+
+/-- … hence it is the identity on every value with the representation invariant -/
+theorem route10 (T : Tables) (hT : tablesWF T = true) (x : Locale) (h : x.inv = true) :
+    runState T x (route10Ops x) = x := by
+  rw [route10_eq_route5, route5_runState T hT x h]
+
 /-! ### non-vacuity
 
 "en-t-es-AR-h0-hybrid-u-abc-foo-ca-buddhist-nu-latn-x-a-priv": two attributes, two keywords, a tlang, a tfield
